@@ -128,7 +128,7 @@ def run_deser(case: dc.Case, rz, label, spec, st, tier):
                 continue
             if tsig(dd) != before:
                 st.violation(dict(base, signature={"kind": "input_modified", "no_copy": nc, "shape": dc.shape_of(label)}, what=f"input modified by deserialization (no_copy={nc})", source=rz.source))
-            if kind == "ok" and not nc and not has_any and "pt_" not in route:  # pass_through returns instances as they are
+            if kind == "ok" and not nc and "pt_" not in route:  # pass_through returns instances as they are
                 a, b = set(), set()
                 containers(dd, a)
                 containers(out, b)
